@@ -144,15 +144,34 @@ def retarget(obj, cfg):
         setattr(obj, kk, float(v))
 
 
-def run_impl(cfg, xs, obj=None):
-    """Returns dict(p, hist, aux, exc)."""
-    x = np.array([float(v) for v in xs])
-    out = {"p": float("nan"), "hist": [], "aux": [], "exc": None}
+def as_input(cfg, xs, variant=0):
+    """The sample as the caller might hold it: float ndarray (default), and — when every value is an integer — an int
+    ndarray or a list of Python ints (0/1 votes are naturally integers).  Kaplan-Markov/Wald need an ndarray."""
+    allint = all(F(v).denominator == 1 for v in xs)
+    if allint and variant % 3 == 1:
+        return np.array([int(v) for v in xs], dtype=np.int64)
+    if allint and variant % 3 == 2 and cfg["kind"] not in ("km", "kw"):
+        return [int(v) for v in xs]
+    return np.array([float(v) for v in xs])
+
+
+def run_impl(cfg, xs, obj=None, variant=0):
+    """Returns dict(p, hist, aux, exc, mutated).  The test is called twice on the same container: a pure function gives the
+    same answer and leaves its input alone."""
+    x = as_input(cfg, xs, variant)
+    x0 = list(x)
+    out = {"p": float("nan"), "hist": [], "aux": [], "exc": None, "mutated": False, "container": type(x).__name__ +
+           (":" + str(getattr(x, "dtype", "")) if hasattr(x, "dtype") else "")}
     try:
         with warnings.catch_warnings():
             warnings.simplefilter("ignore")
             tst = obj if obj is not None else build(cfg)
+            p1, hist1 = tst.test(x)
             p, hist = tst.test(x)
+            same = (nanclose(float(p1), float(p)) and len(np.atleast_1d(hist1)) == len(np.atleast_1d(hist))
+                    and all(nanclose(float(a), float(b)) for a, b in zip(np.atleast_1d(hist1), np.atleast_1d(hist))))
+            if list(x) != x0 or not same:
+                out["mutated"] = True
             out["p"] = float(p)
             out["hist"] = [float(h) for h in np.atleast_1d(hist)]
             if cfg["kind"].startswith("alpha"):
@@ -161,9 +180,23 @@ def run_impl(cfg, xs, obj=None):
             elif cfg["kind"].startswith("bet"):
                 a = tst.bet(x)
                 out["aux"] = [float(v) for v in (np.ones(len(x)) * a)]
+            if list(x) != x0:
+                out["mutated"] = True
     except Exception as e:  # noqa
         out["exc"] = f"{type(e).__name__}: {e}"
     return out
+
+
+def nanclose(a, b):
+    return (a == b) or (math.isnan(a) and math.isnan(b)) or abs(a - b) <= 1e-12 * max(abs(a), abs(b), 1e-300)
+
+
+def purity_violation(case):
+    """A test that modifies the caller's data, or answers differently when asked twice, makes every later evaluation
+    (growing prefixes of one array during escalation) depend on earlier calls."""
+    if case["impl"].get("mutated"):
+        return ["the test modified its input array or gave a different answer on the second call with the same data"]
+    return []
 
 
 # ---------------------------------------------------------------- Coq literals
@@ -248,7 +281,7 @@ def corr_cases(rng, n, kinds=None, reuse_frac=0.15, maxlen=12):
                 # parameters of cfg0 that cfg does not mention keep their old value in the instance: mirror that
                 retarget(obj, cfg)
                 tag = "reused"
-        cases.append({"cfg": cfg, "xs": xs, "impl": run_impl(cfg, xs, obj), "tag": tag})
+        cases.append({"cfg": cfg, "xs": xs, "impl": run_impl(cfg, xs, obj, variant=rng.randint(0, 5)), "tag": tag})
     return cases
 
 
@@ -321,3 +354,31 @@ def small_exhaustive(maxlen=4, kinds=None):
                     out.append(({"kind": kind, "N": N, "t": u / 2, "u": u, "ro": (len(out) % 4 != 0) or (kind == "sprt" and N is not None), "p": p},
                                 list(xs)))
     return out
+
+
+# ---------------------------------------------------------------- non-dyadic stream (oracles only, no model comparison)
+def gen_nondyadic(rng):
+    """Values that are NOT exactly representable sums (0.1, 0.6, 0.7, 1/3, 1/(2-v)): rounding now matters, so these
+    cases are not compared with the exact model; only oracles that are insensitive to rounding are applied to them."""
+    kind = rng.choice(KINDS)
+    cfg = gen_cfg(rng, kind=kind)
+    u = cfg["u"]
+    pool = [F(1, 10), F(3, 10), F(6, 10), F(7, 10), F(1, 3), F(2, 3), F(55, 100), F(10, 19), F(0), F(1), F(1, 2)]
+    vals = [C.frac(float(v)) * u for v in pool]
+    vals = [v for v in vals if 0 <= v <= u]
+    top = min(cfg["N"] or 40, 40)
+    if cfg["N"]:
+        cfg["N"] = max(cfg["N"], rng.randint(5, 40))
+        top = cfg["N"]
+    n = rng.randint(1, top)
+    style = rng.choice(["const", "const", "two", "mix"])
+    if style == "const":
+        xs = [rng.choice(vals)] * n
+    elif style == "two":
+        a, b = rng.choice(vals), rng.choice(vals)
+        xs = [rng.choice([a, b]) for _ in range(n)]
+    else:
+        xs = [rng.choice(vals) for _ in range(n)]
+    if kind == "alpha_shrink":
+        cfg["p"]["f"] = rng.choice([F(0), F(1, 2), F(2)])
+    return cfg, xs
